@@ -630,6 +630,26 @@ func runBox(c BoxCase, o *vh.Obs) *vh.Failure {
 			return vh.Failf("aabb-encapsulate-bounds", "box grown by EncapsulateBounds does not contain corner %v", p)
 		}
 	}
+	// the idiom the renderer's hierarchy uses: start from the empty box and grow it
+	empty := geometry.NewEmptyAABB()
+	for _, p := range c.Pts {
+		empty.EncapsulatePoint(v(p))
+	}
+	empty.EncapsulateBounds(other)
+	for _, p := range append(append([]V3{}, c.Pts...), av(other.Min()), av(other.Max())) {
+		if !inside(empty, p) {
+			return vh.Failf("aabb-empty-grown", "NewEmptyAABB grown over the points and the box does not contain %v: [%v,%v]", p, av(empty.Min()), av(empty.Max()))
+		}
+	}
+	// Expand(amount >= 0) keeps what the box contained (Intersects is an exact comparison of re-centred
+	// bounds and may miss a box that touches by one ulp: not judged)
+	wider := grown
+	wider.Expand(math.Abs(c.Q[0]))
+	for _, p := range []V3{av(grown.Min()), av(grown.Max())} {
+		if !inside(wider, p) {
+			return vh.Failf("aabb-expand", "Expand(%v) lost corner %v", math.Abs(c.Q[0]), p)
+		}
+	}
 	// ClosestPoint: inside the box, and equal to the clamp reference (which is the nearest point)
 	cp := av(grown.ClosestPoint(v(c.Q)))
 	if !inside(grown, cp) {
